@@ -446,8 +446,8 @@ V("C17", "atom_slice-forwards-lengths-only", "mdtraj/core/trajectory.py", """   
 
     def remove_solvent""", "C17-R4")
 V("C17", "zero-box-clears-only-lengths", "mdtraj/core/trajectory.py", "            self._unitcell_lengths = None\n            self._unitcell_angles = None\n            return", "            self._unitcell_lengths = None\n            return", "C17-R4")
-V("C17", "lammps-writer-swaps-xz-yz-source", "mdtraj/formats/lammpstrj.py", "            xz = c * np.cos(beta)", "            xz = c * np.cos(alpha)", "C17-R1")
-V("C17", "lammps-reader-gamma-from-xz", "mdtraj/formats/lammpstrj.py", "            gamma = np.arccos(xy / b)", "            gamma = np.arccos(xz / b)", "C17-R1")
+V("C17", "lammps-writer-swaps-xz-yz-source", "mdtraj/formats/lammpstrj.py", "            xz = c * np.cos(beta)", "            xz = c * np.cos(alpha)", "C17-R7")
+V("C17", "lammps-reader-gamma-from-xz", "mdtraj/formats/lammpstrj.py", "            gamma = np.arccos(xy / b)", "            gamma = np.arccos(xz / b)", "C17-R7")
 V("C17", "volume-from-lengths-product", "mdtraj/core/trajectory.py", "            return np.array(list(map(np.linalg.det, self.unitcell_vectors)), dtype=np.float64)",
   "            return np.prod(self.unitcell_lengths, axis=1).astype(np.float64)", "C17-R5")
 V("C17", "twin-sum-instead-of-einsum", U, 'alpha = np.arccos(np.einsum("...i, ...i", b, c) / (b_length * c_length), casting=\'safe\')', "alpha = np.arccos(np.sum(b * c, axis=-1) / (b_length * c_length))", None)
